@@ -304,10 +304,16 @@ def build() -> Check:
                           "and not after the pagination loop - completed operations on later pages are ignored and their log lines are emitted again",
                           where=f"line {x.lineno}", cell=a)
 
-    # R4 terminal set sanity
+    # R4 the replay boundary counts exactly the operations that can never change again (an operation in READY/PENDING/STARTED still has
+    # work to do in this invocation: counting it keeps the logger muted while new code runs; leaving a terminal status out un-mutes early)
+    from sa.common import replay_completed_statuses
     term = terminal_statuses(prog)
-    ck.ob("R4.terminal-set", "state.py:ExecutionState.track_replay", {"SUCCEEDED", "FAILED"} <= term and not (term & {"STARTED", "PENDING", "READY"}),
-          f"track_replay counts {sorted(term)} as completed")
+    tests = replay_completed_statuses(prog)
+    ck.floor("replay_status_tests", len(tests), 1)
+    for got, where in tests:
+        ck.ob("R4.terminal-set", "state.py:ExecutionState.track_replay", got == term,
+              f"{where} counts {sorted(got)} as completed; the operations that can no longer change are {sorted(term)} "
+              f"(extra: {sorted(got - term)}, missing: {sorted(term - got)})")
     return ck
 
 
